@@ -740,7 +740,12 @@ type vbin struct{ V, C float64 }
 // skSnap is the full observable state of a sketch through its public API.
 type skSnap struct {
 	Count, Zero, Sum float64
-	Empty            bool
+	// SumExact: the sum comes from exact summary statistics; the plain sketch's
+	// approximate sum is accumulated in iteration order, which for the sparse
+	// store is the map order, so with mixed signs it may differ arbitrarily from
+	// call to call (cancellation); it is a function of the bins, which are compared.
+	SumExact bool
+	Empty    bool
 	Min, Max         float64
 	MinErr, MaxErr   bool
 	Quant            []float64
@@ -760,6 +765,7 @@ func fbits(f float64) uint64 {
 
 func (x *xctx) snapSketch(s sk, op string) *skSnap {
 	sn := &skSnap{}
+	_, sn.SumExact = s.(*ddsketch.DDSketchWithExactSummaryStatistics)
 	x.lib(op+"/GetCount", "", func() { sn.Count = s.GetCount() })
 	x.lib(op+"/GetZeroCount", "", func() { sn.Zero = s.GetZeroCount() })
 	x.lib(op+"/GetSum", "", func() { sn.Sum = s.GetSum() })
@@ -805,7 +811,7 @@ func (a *skSnap) diff(b *skSnap, tolerant bool) string {
 		switch {
 		case fbits(a.Count) != fbits(b.Count):
 			return fmt.Sprintf("GetCount %v vs %v", a.Count, b.Count)
-		case fbits(a.Sum) != fbits(b.Sum):
+		case a.SumExact && fbits(a.Sum) != fbits(b.Sum):
 			return fmt.Sprintf("GetSum %v vs %v", a.Sum, b.Sum)
 		}
 	}
